@@ -316,7 +316,8 @@ PROPS = {
         functions=["JobShopGraph.__init__", "JobShopGraph.add_operation_nodes", "JobShopGraph.add_node", "JobShopGraph.add_edge",
                    "JobShopGraph.nodes", "JobShopGraph.nodes_by_type", "JobShopGraph.nodes_by_job", "JobShopGraph.nodes_by_machine",
                    "Node.__init__", "Node.node_id", "Node.node_id.setter", "Node.operation", "Node.machine_id", "Node.job_id",
-                   "add_conjunctive_edges", "add_source_sink_nodes", "add_source_sink_edges"],
+                   "add_conjunctive_edges", "add_source_sink_nodes", "add_source_sink_edges", "add_disjunctive_edges",
+                   "build_disjunctive_graph"],
         lemmas=[],
         tierb=True,
         trusted=["networkx through the contracts of contracts/graphs.py: a DiGraph is a node set and an edge map over an injective "
@@ -334,8 +335,13 @@ PROPS = {
                      "and keeps GraphOK; add_edge sets exactly the edge (u, v) to the given type, raises ValidationError iff an end "
                      "is not in the graph; add_conjunctive_edges adds exactly the edges between nodes of successive operations of a "
                      "job, typed conjunctive; add_source_sink_nodes appends source then sink (ids N, N+1); add_source_sink_edges "
-                     "adds exactly source -> first and last -> sink of every job, typed conjunctive; nothing else changes",
-                     "bounded only: disjunctive edges, the agent-task builders (machine / job / global nodes and their edges), "
+                     "adds exactly source -> first and last -> sink of every job, typed conjunctive; nothing else changes; for "
+                     "NON-FLEXIBLE instances add_disjunctive_edges adds exactly both directions between every two operations "
+                     "sharing their machine (itertools.combinations as a bijection onto index pairs, ghost position map mpos), "
+                     "and build_disjunctive_graph returns a new graph with N + 2 nodes (operations by id, source, sink) whose "
+                     "edge map is, for ALL pairs (u, v): conjunctive for source->first, last->sink and successive operations of a "
+                     "job, else disjunctive for two different operations sharing a machine, else absent",
+                     "bounded only: disjunctive edges of flexible instances, the agent-task builders (machine / job / global nodes and their edges), "
                      "the solved disjunctive graph (acyclic, longest path vs makespan), default-argument / shared-node effects "
                      "across graphs"],
     ),
